@@ -64,3 +64,8 @@ package syncer
 //@   props C04 C12
 //@   requires maxKeyBits == 8 * 8191
 //@   ensures maxProofDepth >= maxKeyBits
+
+//@ func ProofBuilder.Size
+//@   props C12
+//@   modifies nothing
+//@   ensures result == b.size
